@@ -4,7 +4,7 @@ k="$1"; suf="$2"; shift 2
 P=/tmp/ev/$k; mkdir -p $P
 if [ ! -d $P/repo ]; then git -C /repo worktree add --detach $P/repo HEAD -q; cp /repo/Cargo.lock $P/repo/; fi
 git -C $P/repo checkout -q -- . ; git -C $P/repo checkout -q --detach $(git -C /repo rev-parse HEAD)
-rsync -a --delete --exclude target --exclude target-rustls --exclude out --exclude .git --exclude seeded --exclude shadow /verif/ $P/verif/
+rsync -a --delete --exclude target --exclude 'target-*' --exclude out --exclude .git --exclude seeded --exclude shadow /verif/ $P/verif/
 mkdir -p $P/verif/out
 for spec in "$@"; do
   id="${spec%%:*}"; extra="${spec#*:}"; [ "$extra" = "$spec" ] && extra=""; extra="${extra//,/ }"
